@@ -40,6 +40,9 @@ fn main() {
     if std::env::var_os("VERIF_PANIC_TRACE").is_none() {
         std::panic::set_hook(Box::new(|_| {}));
     }
+    if args[0] == "--c19-child" {
+        monitor::c19crash::child_main(&args[1..]);
+    }
     if args[0] == "--selftest" {
         self_test();
         println!("selftest ok");
